@@ -77,6 +77,10 @@ static TestC *current(void) {
 }
 
 static int decl_counter;
+static volatile int program_global;
+
+static int probe_fn(void) { return (int)mock(); }
+static void setter_fn(int *out) { mock(out); }
 
 static void do_acts(ActC *acts, int n) {
     for (int i = 0; i < n; i++) {
@@ -90,6 +94,23 @@ static void do_acts(ActC *acts, int n) {
         case 'E': exit(0);
         case 'U': _exit(0);
         case 'Z': for (;;) sleep(100);
+        case 'l': cgreen_mocks_are(loose_mocks); break;
+        case 'g': cgreen_mocks_are(learning_mocks); break;
+        case 's': cgreen_mocks_are(strict_mocks); break;
+        case 'u': probe_fn(); break;
+        case 'e': expect(probe_fn); probe_fn(); break;
+        case 'G': significant_figures_for_assert_double_are(acts[i].arg); break;
+        case 'D': assert_that_double(1.0, is_equal_to_double(1.002)); break;
+        case 'W': program_global = 1; break;
+        case 'R': assert_that(program_global, is_equal_to(0)); break;
+        case 'c': {
+            static int value = 4711;
+            int buffer = 0;
+            expect(setter_fn, will_set_contents_of_parameter(out, &value, sizeof(value)));
+            setter_fn(&buffer);
+            assert_that(buffer, is_equal_to(4711));
+            break;
+        }
         default: abort();
         }
     }
@@ -119,6 +140,16 @@ static int parse_acts(char *s, ActC **out) {
         else if (!strcmp(tok, "U")) a.kind = 'U';
         else if (!strcmp(tok, "Z")) a.kind = 'Z';
         else if (tok[0] == 'K') { a.kind = 'K'; a.arg = atoi(tok + 1); }
+        else if (!strcmp(tok, "ML")) a.kind = 'l';
+        else if (!strcmp(tok, "MG")) a.kind = 'g';
+        else if (!strcmp(tok, "MS")) a.kind = 's';
+        else if (!strcmp(tok, "CU")) a.kind = 'u';
+        else if (!strcmp(tok, "EC")) a.kind = 'e';
+        else if (!strcmp(tok, "MC")) a.kind = 'c';
+        else if (!strcmp(tok, "D")) a.kind = 'D';
+        else if (!strcmp(tok, "W")) a.kind = 'W';
+        else if (!strcmp(tok, "R")) a.kind = 'R';
+        else if (tok[0] == 'G') { a.kind = 'G'; a.arg = atoi(tok + 1); }
         else { fprintf(stderr, "bad act %s\n", tok); exit(3); }
         if (used >= MAXA) { fprintf(stderr, "too many acts\n"); exit(3); }
         pool[used++] = a;
